@@ -192,8 +192,39 @@ def h_merge(B, seed, bias, go_right):
     B.eq("merged log-weight == logaddexp of the sub-tree log-weights (weights add)", _flat(m["logweight"]), _flat(ref))
 
 
+def h_momentum(B, n, sampler):
+    """the momentum refresh of the sampler classes is consistent with their kinetic energy: white noise xi gives a momentum
+    p with p_i^2 * inverse_mass_i == xi_i^2 (p ~ N(0, M)), so kinetic_energy(p) == |xi|^2 / 2 and exp(-H) stays invariant"""
+    import importlib
+    import warnings
+    oo = importlib.import_module("nifty.re.hmc_oo")
+    H = hmc()
+    im = B.reals("im", (n,))
+    B.assume_all([t > 0 for t in im])
+    xi = B.reals("xi", (n,))
+
+    def run(im, xi):
+        with warnings.catch_warnings():
+            warnings.simplefilter("ignore")
+            kw = dict(potential_energy=lambda q: 0.5 * jnp.sum(q * q), inverse_mass_matrix=im, position_proto=jnp.zeros(n), step_size=0.1)
+            smp = oo.HMCChain(num_steps=1, **kw) if sampler == "hmc" else oo.NUTSChain(max_tree_depth=1, **kw)
+        orig = H.random_like
+        H.random_like = lambda key, primals, rng=None: xi
+        try:
+            p = H.sample_momentum_from_diagonal(key=jax.random.PRNGKey(0), mass_matrix_sqrt=smp.mass_matrix_sqrt)
+        finally:
+            H.random_like = orig
+        return p, smp.kinetic_energy(smp.inverse_mass_matrix, p)
+    p, kin = jcall(B, run, im, xi)
+    p = np.asarray(p, dtype=object).reshape(-1)
+    B.eq("refreshed momentum: p_i^2 * inverse_mass_i == xi_i^2  (p ~ N(0, M))", [p[i] * p[i] * im[i] for i in range(n)], [xi[i] * xi[i] for i in range(n)])
+    B.eq("kinetic energy of the refreshed momentum == |xi|^2 / 2", [np.asarray(kin, dtype=object).reshape(-1)[0]], [sum((x * x for x in xi), 0) / 2])
+
+
 def scenarios(tier, seed):
     out = []
+    out.append(("momentum", {"n": 2, "sampler": "hmc"}))
+    out.append(("momentum", {"n": 1, "sampler": "nuts"}))
     for dim in (1, 2):
         for steps in (1, 2, 3):
             if dim == 2 and steps == 3 and tier == "quick":
@@ -211,7 +242,7 @@ def scenarios(tier, seed):
     return out
 
 
-HARNESSES = {"reversible": h_reversible, "volume": h_volume, "accept": h_accept, "merge": h_merge}
+HARNESSES = {"momentum": h_momentum, "reversible": h_reversible, "volume": h_volume, "accept": h_accept, "merge": h_merge}
 OPTS = {"quick": {"max_paths": 16, "budget_s": 300, "jobs": 10}, "thorough": {"max_paths": 16, "budget_s": 1200, "jobs": 10}}
 
 META = {
